@@ -202,6 +202,9 @@ func (fc *funcContext) translateExpr(expr ast.Expr) *expression {
 
 	case *ast.FuncLit:
 		fun := fc.literalFuncContext(e).translateFunctionBody(e.Type, nil, e.Body)
+		// The body of the literal ends its own source mapping; the code that follows
+		// it belongs to the enclosing statement again.
+		fun += string(fc.posHint())
 		if len(fc.pkgCtx.escapingVars) != 0 {
 			names := make([]string, 0, len(fc.pkgCtx.escapingVars))
 			for obj := range fc.pkgCtx.escapingVars {
